@@ -105,6 +105,20 @@ Theorem trace_ok_fifo :
 Proof. exact log_fifo_lemma. Qed.
 Print Assumptions trace_ok_fifo.
 
+(* ... and in real time, across receivers: if some receive of x1 has returned (in log1) before
+   receiver rc invoked (in log2) the operation that received x2, and sender sd sent both, then sd
+   sent x1 first.  This is the clause spec_fifo evaluates on every log. *)
+Theorem trace_ok_fifo_realtime :
+  forall caps log1 log2, trace_ok caps (log1 ++ log2) = true ->
+  forall c sd rc x1 x2, (c < length caps)%nat -> NoDup (log_sent c (log1 ++ log2)) ->
+    In x1 (log_recvd c log1) ->
+    open_inv rc log1 = false ->
+    In x2 (log_recvd_by rc c log2) ->
+    In x1 (log_sent_by sd c (log1 ++ log2)) -> In x2 (log_sent_by sd c (log1 ++ log2)) ->
+    subseq [x1; x2] (log_sent_by sd c (log1 ++ log2)).
+Proof. exact log_fifo_realtime_lemma. Qed.
+Print Assumptions trace_ok_fifo_realtime.
+
 (* non-interference at the level of types (see the header) *)
 Theorem proto_immutable :
   forall (Proto LS Out : Type) (step : Proto -> LS -> LS * list Out) sched (w : world Proto LS Out),
